@@ -115,6 +115,8 @@ class StoreAdapter(Adapter):
             _ = [m.unique_id for m in ctx.ds.not_completed]
         return ret
 
+    md5_blind = False
+
     def observe(self, ds, anomalies, tag):
         comp = {i: NONE for i in self.ids}
         nc = {i: NONE for i in self.ids}
@@ -195,6 +197,12 @@ class StoreAdapter(Adapter):
         finally:
             self.close_ro(ro)
         self.extra_views(ctx, comp, nc, logs, anomalies)
+        if self.md5_blind:
+            # second pass of the directory store: the ONE recorded root cause (a single md5 file per identifier) is taken
+            # out of the observation, so that the states it leads to - an identifier that is completed AND not-completed -
+            # are explored too instead of ending the history at the known finding
+            anomalies = [a for a in anomalies if "completed-md5" not in a]
+            ctx.detail = {"md5_blind": True}
         if anomalies:
             state["anomalies"] = sorted(set(anomalies))
         return state
@@ -369,6 +377,9 @@ def check(run: Run):
     # (3) identifiers that contain dots (gene / gene.1: what apply_to derives from gene.fasta, gene.1.fasta)
     cfgs = (["MC_DataStore_quick.cfg", "MC_DataStore_quick_names.cfg", "MC_DataStore_quick_dots.cfg"] if tier == "quick"
             else ["MC_DataStore_thorough.cfg", "MC_DataStore_thorough_names.cfg", "MC_DataStore_thorough_dots.cfg"])
+    # (4) ONE identifier: small enough (108 states) that every transition is replayed without a budget in both tiers -
+    # every history of one identifier, to any depth: completed and not-completed at once, re-opened in every mode, refused
+    cfgs.append("MC_DataStore_single.cfg")
     logids = ["l1"]
     with Scratch("C13") as scratch:
         stats = {}
@@ -379,8 +390,15 @@ def check(run: Run):
             init = {"comp": {i: NONE for i in ids}, "nc": {i: NONE for i in ids}, "logs": {l: False for l in logids}, "mode": "w", "fresh": True}
             g_dir = Graph(recs)
             g_sql = Graph(r for r in recs if not (r["act"] in ("Write", "WriteNC", "DropNC") and r["args"][-1]))
-            budget = None if total is None else total // len(cfgs)
-            for name, g, ad in (("dir", g_dir, DirAdapter(ids, logids, scratch)), ("sqlite", g_sql, SqliteAdapter(ids, logids, scratch))):
+            budget = None if total is None or cfg == "MC_DataStore_single.cfg" else total // (len(cfgs) - 1)
+            blind = DirAdapter(ids, logids, scratch)
+            blind.md5_blind = True
+            passes = [("dir", g_dir, DirAdapter(ids, logids, scratch), budget), ("sqlite", g_sql, SqliteAdapter(ids, logids, scratch), budget)]
+            if tier == "thorough" or cfg == "MC_DataStore_single.cfg":
+                # histories THROUGH the recorded shared-md5-file finding (see project): quick explores them for the one-identifier
+                # instantiation only (exhaustively)
+                passes.append(("dir-md5-blind", g_dir, blind, None if budget is None else budget // 2))
+            for name, g, ad, budget in passes:
                 st = explore(g, init, ad, run, seed=run.seed, budget=budget)
                 stats[f"{name}:{'+'.join(ids)}"] = st
                 run.cov["traces_validated_against_impl"] += st["impl_transitions_checked"]
@@ -415,6 +433,7 @@ def replay_case(detail):
     try:
         kind = str(detail.get("key", "dir")).split(":")[0]
         ad = (SqliteAdapter if kind == "sqlite" else DirAdapter)(ids, ["l1"], root)
+        ad.md5_blind = bool((detail.get("adapter_detail") or {}).get("md5_blind"))
         return replay_detail(ad, detail)
     finally:
         shutil.rmtree(root, ignore_errors=True)
